@@ -2,6 +2,7 @@
 # usage: tools/run_seeds.sh [ids…] — apply every kept seeded change to /repo in turn, run the check of the property it was
 # written against (quick tier), undo, and record the outcome in seeded/<id>/meta.json ("detection").
 cd /verif
+export VERIF_EVIDENCE_DIR=/verif/.cache/seed-evidence; mkdir -p $VERIF_EVIDENCE_DIR   # never overwrite the evidence of the unchanged tree
 ids=${@:-$(ls seeded)}
 for d in $ids; do
   id=${d%-*}; id=${id%b}
@@ -12,6 +13,7 @@ for d in $ids; do
   git -C /repo apply /verif/$p
   s=$(date +%s)
   out=$(./check $id --tier quick 2>&1); rc=$?
+  mkdir -p /verif/.cache/seed-logs; echo "$out" > /verif/.cache/seed-logs/$d.log
   git -C /repo checkout -- .
   viol=$(echo "$out" | grep -c "^VIOLATION")
   noin=$(echo "$out" | grep -c "no-failing-input-found")
